@@ -272,6 +272,15 @@ func c18Store(r *Rng) []KV {
 			keys = append(keys, k)
 		}
 	}
+	if r.Chance(0.02) {
+		for _, n := range []int{70, 255, 256, 300} {
+			k := pick(r, c18Lits(2)) + strings.Repeat("a", n)
+			if !seen[k] {
+				seen[k] = true
+				keys = append(keys, k)
+			}
+		}
+	}
 	sort.Strings(keys)
 	out := make([]KV, len(keys))
 	for i, k := range keys {
@@ -297,8 +306,19 @@ func genC18(seed uint64, i int, tier string) *Scenario {
 			switch s.Shape {
 			case "in":
 				n := r.Range(1, 4)
+				if r.Chance(0.01) {
+					n = pick(r, []int{65, 256, 300})
+				}
 				for j := 0; j < n; j++ {
 					a.Lits = append(a.Lits, pick(r, lits))
+				}
+				if n > 4 {
+					// many distinct keys, not just the alphabet's 39
+					for j := range a.Lits {
+						if j%3 == 0 {
+							a.Lits[j] = a.Lits[j] + fmt.Sprintf("%03d", j)
+						}
+					}
 				}
 			case "between":
 				x, y := pick(r, lits), pick(r, lits)
@@ -311,6 +331,9 @@ func genC18(seed uint64, i int, tier string) *Scenario {
 				a.Lits = []string{x, y}
 			default:
 				a.Lits = []string{pick(r, lits)}
+				if r.Chance(0.005) {
+					a.Lits[0] = pick(r, lits) + strings.Repeat("a", pick(r, []int{70, 255, 256, 300}))
+				}
 			}
 			return a
 		}
